@@ -31,7 +31,6 @@ CONSTANTS Msgs, Deflates, MaxSend, PieceCounts, Ctls, Segs
 VARIABLES cfg, sent, q, delivered, step
 vars == <<cfg, sent, q, delivered>>
 Dirs == {"c2s", "s2c"}
-MsgById(i) == CHOOSE m \in Msgs : m.id = i
 Ids(s) == [i \in 1..Len(s) |-> s[i].m]
 Proj == [c2s |-> delivered["c2s"], s2c |-> delivered["s2c"]]
 Obs(a, args) == [act |-> a, args |-> args, exp |-> Proj']
@@ -44,12 +43,12 @@ InitWith(c) ==
     /\ step = [act |-> "init", args |-> <<>>, exp |-> [c2s |-> <<>>, s2c |-> <<>>]]
 InitState == \E c \in [deflate : Deflates] : InitWith(c)
 
-Send(d, m) ==
+Send(d, msg) ==
     /\ Len(sent[d]) < MaxSend
-    /\ sent' = [sent EXCEPT ![d] = Append(@, m)]
-    /\ q' = [q EXCEPT ![d] = Append(@, [m |-> m, framed |-> FALSE])]
+    /\ sent' = [sent EXCEPT ![d] = Append(@, msg.id)]
+    /\ q' = [q EXCEPT ![d] = Append(@, [m |-> msg.id, kind |-> msg.kind, dlen |-> msg.dlen, framed |-> FALSE])]
     /\ UNCHANGED <<cfg, delivered>>
-    /\ step' = Obs("send", <<d, m>>)
+    /\ step' = Obs("send", <<d, msg.id>>)
 
 Unframed(d) == {i \in 1..Len(q[d]) : ~q[d][i].framed}
 (* what the writer must put on the wire for message m: one final frame, opcode by kind, RSV1
@@ -68,7 +67,7 @@ FrameFor(d, m, h, n) ==
 Wire(d, h, n) ==
     /\ Unframed(d) # {}
     /\ LET i == CHOOSE i \in Unframed(d) : \A j \in Unframed(d) : i <= j IN
-       /\ FrameFor(d, MsgById(q[d][i].m), h, n)
+       /\ FrameFor(d, q[d][i], h, n)
        /\ q' = [q EXCEPT ![d][i].framed = TRUE]
     /\ UNCHANGED <<cfg, sent, delivered>>
     /\ step' = Obs("wire", <<d, h, n>>)
@@ -77,7 +76,7 @@ Wire(d, h, n) ==
 WireCanon(d, n) ==
     /\ Unframed(d) # {}
     /\ LET i == CHOOSE i \in Unframed(d) : \A j \in Unframed(d) : i <= j
-           m == MsgById(q[d][i].m)
+           m == q[d][i]
        IN /\ (~cfg.deflate => n = m.dlen)
           /\ Wire(d, EncodeHeader(Hdr(1, IF cfg.deflate THEN 4 ELSE 0, IF m.kind = "text" THEN 1 ELSE 2,
                                        IF d = "c2s" THEN 1 ELSE 0, n)), n)
@@ -97,7 +96,7 @@ Deliver(d) ==
     /\ UNCHANGED <<cfg, sent>>
     /\ step' = Obs("deliver", <<d>>)
 
-Next == \/ \E d \in Dirs, m \in {x.id : x \in Msgs} : Send(d, m)
+Next == \/ \E d \in Dirs, m \in Msgs : Send(d, m)
         \/ \E d \in Dirs, k \in PieceCounts, c \in Ctls, s \in Segs : Transfer(d, k, c, s)
         \/ \E d \in Dirs : Deliver(d)
         \/ \E d \in Dirs, n \in {m.dlen : m \in Msgs} \cup {7} : WireCanon(d, n)
